@@ -10,7 +10,7 @@ stdout and the uncaught exception class must be the same at every level and equa
 specification's (CPython as third voter)."""
 import json
 from ..common import *
-from ..ergprog import to_erg, to_py, cpython_vote, shape
+from ..ergprog import to_erg, to_py, cpython_vote, shape, conc
 
 
 def run(ctx):
@@ -44,6 +44,8 @@ def run(ctx):
     cases += sims[: (150 if quick else 2000)]
     if len(cases) < 300:
         raise ToolError("too few programs")
+    for c in cases:
+        c["out"] = [conc(l) for l in c["out"]]
     votes = cpython_vote([c["prog"] for c in cases], DEFAULT_PY)
     srcs = [to_erg(c["prog"]) for c in cases]
     per_level = []
